@@ -4,6 +4,7 @@
 -/
 import AL.Impl.Api
 import AL.Properties.C11
+import AL.Properties.KernelDefs
 import AL.Spec.X86Families
 import AL.Impl.Faults
 import AL.Impl.Cli
@@ -127,7 +128,14 @@ def step (st : DState) (line : String) : DState × String :=
     let n := if r.a.offset > 0 then r.a.offset.toNat else 0
     (st, toString r.exit ++ " " ++ toString r.a.offset ++ " " ++ toHex (r.a.mem.take n) ++ " " ++
       (match r.count with | some c => toString c | none => "-"))
-  | ["QM", name] => (st, AL.Spec.X86.canonMn name)
+  | ["KF"] =>
+    -- C01: the list-level family of the kernel-checked theorem AL.Properties.Kernel.c01_every_instance is, text by text and in the
+    -- same order, the family `famC01` this check runs on the C code (rendered through `String`)
+    let a := AL.Spec.X86.famC01.map (fun it => it.text.toList.map Char.toNat)
+    let b := AL.Properties.Kernel.entriesC01.flatMap fun en => (AL.Spec.X86.enumEnc AL.Spec.X86.fillRegs en).flatMap fun d =>
+      (AL.Properties.Kernel.spellings d.mn).filterMap fun w => AL.Properties.Kernel.lineL w d.ops
+    (st, toString a.length ++ " " ++ toString b.length ++ " " ++ (if a == b then "same" else "different"))
+  | ["QM", name] => (st, AL.Spec.X86.Mn.str (AL.Spec.X86.canonMn (name.toList.map Char.toNat)))
   | ["FC", ext, mallocOk, mmapOk] =>
     -- C17: asm_create_instance under a refusing OS
     (st, match createWith (if ext == "1" then some (4096, List.replicate 4096 0xCC) else none) (mallocOk == "1") (mmapOk == "1") with
